@@ -76,7 +76,7 @@ PROPS.update({
         "level": "exploration",
         "real_binary_smoke": True,
         "parts": [{"engine": "integ", "profile": "c07", "weight": 4}, {"engine": "cli", "profile": "cli", "weight": 2}, {"engine": "fault", "profile": "c13", "weight": 1}, {"engine": "fault", "profile": "c12", "weight": 1}, {"engine": "fault", "profile": "c06s", "weight": 1}],
-        "rule": "indices 0..1535: every exit status 0..255 at each of 3 command positions, with and without allow_failure, directly or as a stage; beyond: random C06-style worlds with more failures, 15% of them with an execution context (half of those with a failing `up` command: none of its tasks can run, each must report the error - the first user and the later ones alike). Third part: the C13 timeout worlds (a task whose command was killed by its timeout failed: reporting success is a C07 violation too). Oracle: Task.Errored/ExitCode/Skipped, error returned by Run/Schedule and stage statuses == model. CLI part: generated configuration file + argv of 1..4 targets (tasks and pipelines in any order, root action or `run`, optional `-- args` containing a task name) through the in-process command line: targets execute in argv order without overlap, nothing of a later target starts after the first failing one, error returned iff a target failed, unrequested tasks never run. distinct = canonical event-log hash; non-trivial = >=2 processes alive together or >=1 non-zero exit",
+        "rule": "indices 0..1535: every exit status 0..255 at each of 3 command positions, with and without allow_failure, directly or as a stage; beyond: random C06-style worlds with more failures, 15% of them with an execution context (half of those with a failing `up` command: none of its tasks can run, each must report the error - the first user and the later ones alike). Third part: the C13 timeout worlds (a task whose command was killed by its timeout failed: reporting success is a C07 violation too). Oracle: Task.Errored/ExitCode/Skipped, error returned by Run/Schedule and stage statuses == model. CLI part: generated configuration file + argv of 1..4 targets (tasks and pipelines in any order, root action or `run`, optional `-- args` containing a task name; in a fifth of the worlds an earlier target is a pipeline that nests a later target - which is then not run again and has failed exactly if it failed inside) through the in-process command line: targets execute in argv order without overlap, nothing of a later target starts after the first failing one, error returned iff a target failed, unrequested tasks never run. distinct = canonical event-log hash; non-trivial = >=2 processes alive together or >=1 non-zero exit",
         "assumptions": _INTEG_ASSUME + ["CLI part: entered at makeApp().Run(argv) in-process; main()'s error -> exit status 1 mapping (5 lines) is not executed"],
     },
     "C11": {
